@@ -7,6 +7,11 @@ Line protocol for K_C11.
     | cannotConnect | indirectTimeout | cancelRequest
   probe                                                      -> the state + ` use=<rx><tx>` (rejected unless returned)
   back <typ:P|D|F> <portObf:0|1>                             -> `enc=<c|o> use=<rx><tx>` (connect-back, wire level)
+  backreq <typ:P|D|F> <prefer:0|1> <port> <obfuscatedPort|-> <ok|refused|write-fails>
+                                                             -> `dial=<port> obf=<0|1> ans=<p|s> reg=<n> enc=<-|c|o>[ use=<rx><tx>]`
+                                                                (connect-back from the ConnectToPeer message up; `-`: the
+                                                                obfuscated-port fields are absent; `rejected`: a dial of port 0
+                                                                that does not fail)
   note <d:CONNECTING|d:CONNECTED|d:INIT|d:CLOSING|d:CLOSED|a:CONNECTED|a:INIT|a:CLOSING|a:CLOSED|w:CLOSING|w:CLOSED>
   show                                                       -> the current state again
   selectPort <prefer:0|1> <port> <obfuscatedPort>            -> `<port> <0|1>`
@@ -73,6 +78,13 @@ def parseOp : List String → Option Op
 def parseCT : String → Option CT
   | "P" => some .peer | "D" => some .distributed | "F" => some .file | _ => none
 
+def parseHow : String → Option BackHow
+  | "ok" => some .ok | "refused" => some .refused | "write-fails" => some .writeFails | _ => none
+
+/-- `-`: the field is absent from the message -/
+def parseOptPort (b : String) : Option (Option Nat) :=
+  if b = "-" then some none else b.toNat?.map some
+
 def showUse : Option (Bool × Bool) → String
   | some (rx, tx) => s!" use={b01 rx}{b01 tx}"
   | none => ""
@@ -90,6 +102,18 @@ def handle (s : Option X) (line : String) : Option X × String :=
       let (enc, w) := connectBackWire t o
       (s, s!"enc={showEnc (some enc)} use={b01 (rxOK t o w)}{b01 (txOK t o w)}")
     | _, _ => (s, "bad-op")
+  | ["backreq", t, p, a, b, h] =>
+    match parseCT t, parseBool p, a.toNat?, parseOptPort b, parseHow h with
+    | some t, some p, some a, some b, some h =>
+      match connectBack t p a b h with
+      | none => (s, "rejected")
+      | some r =>
+        let o := r.dial.2 && r.dial.1 != 0
+        let use := match r.wire with
+          | some (_, w) => s!" use={b01 (rxOK t o w)}{b01 (txOK t o w)}"
+          | none => ""
+        (s, s!"dial={r.dial.1} obf={b01 o} ans={if r.pierced then "p" else ""}{if r.cc then "s" else ""} reg={if r.registered then 1 else 0} enc={showEnc (r.wire.map (·.1))}{use}")
+    | _, _, _, _, _ => (s, "bad-op")
   | ["selectPort", p, a, b] =>
     match parseBool p, a.toNat?, b.toNat? with
     | some p, some a, some b => let (port, o) := selectPort p a b; (s, s!"{port} {b01 o}")
